@@ -58,7 +58,7 @@ def sname(n):
 
 
 def kstr(k):
-    return "%d.%d" % k
+    return "?" if k is None else "%d.%d" % k
 
 
 def kstrs(ks):
@@ -140,6 +140,7 @@ class Env:
         self.win = None
         self.pool = None
         self.windows = 0
+        self.always_fresh = False
 
     def path(self, f):
         return os.path.join(self.root, fname(f))
@@ -176,6 +177,7 @@ class Env:
     def selfcheck(self, chk):
         """different settings give different numbers (otherwise the views could not be decoded); O4: funcs honour their arguments"""
         from qats.fatigue.rainflow import rebin
+        nfail0, indistinct = len(chk.failing), []
         for key in self.allkeys:
             ts = self.ref[key]
             seen = {}
@@ -184,10 +186,10 @@ class Env:
                 for mn in (False, True):
                     st = self.lib("stats", key, tw, fl, mn)
                     if not (np.all(np.isfinite(st["wb_x"])) and np.all(np.isfinite(st["wb_q"])) and st["wb_x"].size > 3):
-                        raise core.InfraError("C19 reference data: Weibull paper values not finite for %s" % (key,))
+                        indistinct.append("Weibull paper values not finite for %s" % (key,))
                     sig = tuple(st["cells"])
                     if sig in seen.setdefault("stats", {}):
-                        raise core.InfraError("C19 reference data: statistics do not distinguish settings %s" % (key,))
+                        indistinct.append("statistics do not distinguish settings %s" % (key,))
                     seen["stats"][sig] = 1
                     chk.count("funcs-contract")
                     kw = dict(twin=TWINS[tw], filterargs=FILTS[fl])
@@ -213,8 +215,10 @@ class Env:
                 for nm, sig in (("trace", (tr["x"].size, float(tr["x"].sum()))), ("psd", (ps[1].size, float(np.sum(ps[1])))),
                                 ("rfc", tuple(np.round(rf[1], 9)) + tuple(np.round(rf[0], 9)))):
                     if sig in seen.setdefault(nm, {}):
-                        raise core.InfraError("C19 reference data: %s does not distinguish settings %s" % (nm, key))
+                        indistinct.append("%s does not distinguish settings %s" % (nm, key))
                     seen[nm][sig] = 1
+        if indistinct and len(chk.failing) == nfail0:
+            raise core.InfraError("C19 reference data: " + "; ".join(indistinct[:3]))
 
     # ---- window --------------------------------------------------------------------------------------------------------------------
     def new_window(self):
@@ -557,10 +561,13 @@ def spec_views(rp, rt):
 class Runner:
     def __init__(self, env, chk=None, fresh=False):
         self.env, self.chk = env, chk
-        if fresh or env.win is None:
+        if fresh or env.win is None or env.always_fresh:
             env.new_window()
         else:
             env.reset_window()
+            o = observe(env)
+            if any(o[k] != "-" for k in o if k != "st") or o["st"] != "0":
+                env.new_window()         # (a defective on_clear is found by the oracles on the histories, not here)
         self.ui = [0, 0, 0, 0]
         self.rp = self.rt = None
         self.events, self.digests = [], []
@@ -972,7 +979,8 @@ def run(chk):
                 b.do(e)
             chk.count("reuse-check")
             if a.digests != b.digests:
-                raise core.InfraError("C19: a re-used window behaves differently from a fresh one")
+                chk.notes.append("a re-used window behaves differently from a fresh one: every history gets a new window")
+                env.always_fresh = True
         chk.sample(dict(events=FIXED[8], final={k: runs[8].digests[-1][k] for k in ("tr", "tb", "rp")}))
         nrand = 45 if chk.quick else 350
         budget = 30 if chk.quick else 110
@@ -1010,7 +1018,22 @@ def run(chk):
 
 def replay(rp):
     inp = rp.get("input") or {}
-    if inp.get("kind") == "funcs" or not inp.get("events"):
+    if inp.get("kind") == "funcs":
+        env = Env()
+        try:
+            chk = core.Check("C19", "quick", 1)
+            try:
+                env.selfcheck(chk)
+            except core.InfraError as e:
+                print("reference data:", e)
+            hits = [f for f in chk.failing if f["input"] == inp] or chk.failing
+            for f in hits[:5]:
+                print("FAILS: %s\n   input %s\n   expected %s\n   observed %s" % (f["oracle"], f["input"], f["expected"], f["observed"]))
+            print("replay: %d failing clause(s)" % len(hits))
+            return 1 if hits else 0
+        finally:
+            env.close()
+    if not inp.get("events"):
         print("re-run ./check C19 %s (no single history to replay)" % rp.get("tier", "quick"))
         return 1
     env = Env()
